@@ -52,6 +52,12 @@ fn cell_of(f: impl FnOnce()) -> *const AtomicUsize {
 pub fn run(entry: &str, class: &str) {
     let start = start_value(class);
     let out = std::io::stdout();
+    // any panic on the way out runs this hook first: an abort that goes through the panic machinery runs user code
+    // (and produces output) although the count has passed the limit
+    std::panic::set_hook(Box::new(|_| {
+        println!("PANIC-HOOK-RAN");
+        let _ = std::io::stdout().lock().flush();
+    }));
     macro_rules! go {
         ($mk:expr, $probe:expr, $clone:expr, $count:expr) => {{
             let h = $mk;
@@ -97,6 +103,43 @@ pub fn run(entry: &str, class: &str) {
             <Arc<A> as arc_swap::RefCnt>::inc(h);
             p
         }, |h: &Arc<A>| Arc::strong_count(h)),
+        // one more clone through a shared reference to the same handle (another thread's), right before the
+        // victim's 2nd / 3rd operation on the count: a clone that reads the count and installs the increment
+        // separately must still abort when the count it finally increments has passed the limit
+        "arc_raced2" | "arc_raced3" => {
+            let k_at = if entry == "arc_raced2" { 2 } else { 3 };
+            let h = Arc::new(A::mk(1));
+            let cell = cell_of(|| {
+                let _ = Arc::strong_count(&h);
+            });
+            unsafe { (*cell).store(start, Ordering::SeqCst) };
+            println!("PRESET count={:#x}", Arc::strong_count(&h));
+            let hp: *const Arc<A> = &h;
+            crate::trace::inject_reset();
+            crate::trace::INJECT.with(|i| {
+                *i.borrow_mut() = Some(Box::new(move |k: usize| {
+                    if k == k_at {
+                        println!("ADVERSARY-FIRED");
+                        let c = unsafe { (*hp).clone() };
+                        std::mem::forget(c);
+                        println!("ADVERSARY-RETURNED");
+                    }
+                }))
+            });
+            println!("CALLING");
+            let _ = out.lock().flush();
+            let r = catch_unwind(AssertUnwindSafe(|| {
+                let c = h.clone();
+                std::mem::forget(c);
+            }));
+            crate::trace::INJECT.with(|i| *i.borrow_mut() = None);
+            match r {
+                Ok(()) => println!("RETURNED count={:#x}", Arc::strong_count(&h)),
+                Err(_) => println!("CAUGHT-PANIC count={:#x}", Arc::strong_count(&h)),
+            }
+            let _ = out.lock().flush();
+            std::mem::forget(h);
+        }
         _ => {
             println!("UNKNOWN-ENTRY");
             std::process::exit(2);
